@@ -60,6 +60,11 @@ BROAD_MODES = {
     "init_random": ({"up": {"init.random_initial_directions": True}}, {"random"}),
     "init_random_nonorthog": ({"up": {"init.random_initial_directions": True, "init.random_directions_make_orthogonal": False}}, {"random"}),
     "init_random_parallel": ({"up": {"init.random_initial_directions": True, "init.run_in_parallel": True}, "npt": 5}, {"random"}),
+    # all initial points are evaluated before any is looked at: with a user tolerance that an initial point already meets, the points
+    # evaluated after it must not be lost (finding 38)
+    "init_random_parallel_abstol": ({"up": {"init.random_initial_directions": True, "init.run_in_parallel": True, "model.abs_tol": 20.0}, "npt": 5}, {"random"}),
+    "init_random_parallel_abstol_avg": ({"up": {"init.random_initial_directions": True, "init.run_in_parallel": True, "model.abs_tol": 20.0}, "npt": 5,
+                                         "nsamples": "const2", "noise_amp": 0.02, "memo": False}, {"random", "noisy", "avg"}),
     "init_random_bounds_npt6": (dict(_BOX2, up={"init.random_initial_directions": True}, npt=6, x0=[0.9, -0.5]), {"random"}),
     # growing phase
     "grow": ({"up": dict(_G)}, {"random"}),
